@@ -25,6 +25,14 @@ theorem WellFormed.child_lt {t : Table} (h : WellFormed t) {i : Nat} (h1 : NUM_S
   have := h.inner h1 h2
   cases b <;> simp [child, childF, this.1, this.2.1]
 
+/-- all the decoder's termination and capacity theorems need of a table: every inner node's children
+have smaller indices -/
+def ChildLt (t : Table) : Prop :=
+  ∀ i, NUM_SYMBOLS ≤ i → i < NUM_NODES → ∀ b, child t i b < i
+
+theorem WellFormed.childLt {t : Table} (h : WellFormed t) : ChildLt t :=
+  fun _ h1 h2 b => h.child_lt h1 h2 b
+
 /-! ### one step, by cases -/
 
 theorem decStep_cases (t : Table) (cap nd : Nat) (out : List UInt8) (b : Bool) :
@@ -172,14 +180,14 @@ def Inner (nd : Nat) : Prop := NUM_SYMBOLS ≤ nd ∧ nd < NUM_NODES
 
 theorem inner_root : Inner ROOT_IDX := by unfold Inner; decide
 
-theorem decBits_inner (t : Table) (h : WellFormed t) (cap : Nat) (bits : List Bool) :
+theorem decBits_inner_of_childLt (t : Table) (h : ChildLt t) (cap : Nat) (bits : List Bool) :
     ∀ (nd : Nat) (out : List UInt8), Inner nd →
       ∀ nd' out', decBits t cap nd out bits = .more nd' out' → Inner nd' := by
   induction bits with
   | nil => intro nd out hi nd' out' heq; simp [decBits] at heq; exact heq.1 ▸ hi
   | cons b bs ih =>
     intro nd out hi nd' out'
-    have hlt := h.child_lt hi.1 hi.2 b
+    have hlt := h _ hi.1 hi.2 b
     rcases decStep_cases t cap nd out b with ⟨hge, hs⟩ | ⟨_, hs⟩ | ⟨_, _, hs⟩ | ⟨_, hc, hs⟩ <;>
       simp only [decBits, hs]
     · exact ih _ out ⟨hge, by have := hi.2; omega⟩ nd' out'
@@ -187,14 +195,14 @@ theorem decBits_inner (t : Table) (h : WellFormed t) (cap : Nat) (bits : List Bo
     · simp
     · exact ih _ _ inner_root nd' out'
 
-theorem decZeros_terminates (t : Table) (h : WellFormed t) (cap : Nat) (fuel : Nat) :
+theorem decZeros_terminates_of_childLt (t : Table) (h : ChildLt t) (cap : Nat) (fuel : Nat) :
     ∀ (nd : Nat) (out : List UInt8), Inner nd → out.length ≤ cap →
       514 * (cap - out.length) + nd < fuel → decZeros t cap fuel nd out ≠ .diverge := by
   induction fuel with
   | zero => intro nd out _ _ hm; omega
   | succ f ih =>
     intro nd out hi hl hm
-    have hlt := h.child_lt hi.1 hi.2 false
+    have hlt := h _ hi.1 hi.2 false
     rcases decStep_cases t cap nd out false with ⟨hge, hs⟩ | ⟨_, hs⟩ | ⟨_, _, hs⟩ | ⟨_, hc, hs⟩ <;>
       simp only [decZeros, hs]
     · exact ih _ out ⟨hge, by have := hi.2; omega⟩ hl (by omega)
@@ -206,7 +214,7 @@ theorem decZeros_terminates (t : Table) (h : WellFormed t) (cap : Nat) (fuel : N
       rw [e2, List.length_cons]
       omega
 
-theorem decompress_terminates (t : Table) (h : WellFormed t) (input : List UInt8) (cap : Nat) :
+theorem decompress_terminates_of_childLt (t : Table) (h : ChildLt t) (input : List UInt8) (cap : Nat) :
     decompress t input cap ≠ .diverge := by
   simp only [decompress]
   have hb := decBits_bound t cap (input.flatMap byteBits) ROOT_IDX [] (by simp)
@@ -216,8 +224,8 @@ theorem decompress_terminates (t : Table) (h : WellFormed t) (input : List UInt8
     intro hr; subst hr; exact hb
   · next nd o heq =>
     rw [heq] at hb
-    have hi := decBits_inner t h cap _ ROOT_IDX [] inner_root nd o heq
-    apply decZeros_terminates t h cap _ nd o hi hb.2
+    have hi := decBits_inner_of_childLt t h cap _ ROOT_IDX [] inner_root nd o heq
+    apply decZeros_terminates_of_childLt t h cap _ nd o hi hb.2
     have h2 : nd < 513 := hi.2
     have e : zeroFuel cap = 514 * (cap + 2) := by simp [zeroFuel, NUM_NODES, Nat.mul_comm]
     rw [e]
@@ -306,10 +314,10 @@ theorem decZeros_fuel_mono (t : Table) (cap : Nat) (fuel : Nat) :
       · intro _; rfl
       · intro _; rfl
 
-theorem decompress_trunc (t : Table) (h : WellFormed t) (input : List UInt8) (cap' cap : Nat)
+theorem decompress_trunc_of_childLt (t : Table) (h : ChildLt t) (input : List UInt8) (cap' cap : Nat)
     (hc : cap' ≤ cap) : decompress t input cap' = (decompress t input cap).trunc cap' := by
-  have hterm := decompress_terminates t h input cap
-  have hterm' := decompress_terminates t h input cap'
+  have hterm := decompress_terminates_of_childLt t h input cap
+  have hterm' := decompress_terminates_of_childLt t h input cap'
   simp only [decompress] at hterm hterm' ⊢
   have hb := decBits_bound t cap (input.flatMap byteBits) ROOT_IDX [] (by simp)
   have ht := decBits_trunc t cap' cap hc (input.flatMap byteBits) ROOT_IDX [] (by simp)
@@ -340,7 +348,7 @@ theorem decompress_trunc (t : Table) (h : WellFormed t) (input : List UInt8) (ca
 
 /-- capacity error exactly when the decoded output does not fit: at any capacity at which the
 decoder succeeds, the output is longer than `cap` -/
-theorem decompress_capacity_iff (t : Table) (h : WellFormed t) (input : List UInt8) (cap : Nat) :
+theorem decompress_capacity_iff_of_childLt (t : Table) (h : ChildLt t) (input : List UInt8) (cap : Nat) :
     decompress t input cap = .capacity ↔
       ∀ cap' out, decompress t input cap' = .ok out → cap < out.length := by
   constructor
@@ -348,15 +356,15 @@ theorem decompress_capacity_iff (t : Table) (h : WellFormed t) (input : List UIn
     by_cases hle : out.length ≤ cap
     · exfalso
       rcases Nat.le_total cap' cap with h1 | h1
-      · have := decompress_trunc t h input cap' cap h1
+      · have := decompress_trunc_of_childLt t h input cap' cap h1
         rw [hcapacity, hok] at this
         simp [DecResult.trunc] at this
-      · have := decompress_trunc t h input cap cap' h1
+      · have := decompress_trunc_of_childLt t h input cap cap' h1
         rw [hcapacity, hok] at this
         simp [DecResult.trunc, hle] at this
     · omega
   · intro hall
-    have hterm := decompress_terminates t h input cap
+    have hterm := decompress_terminates_of_childLt t h input cap
     revert hterm hall
     generalize hr : decompress t input cap = r
     cases r with
@@ -367,6 +375,30 @@ theorem decompress_capacity_iff (t : Table) (h : WellFormed t) (input : List UIn
       omega
     | capacity => intro _ _; rfl
     | diverge => intro _ hd; exact (hd rfl).elim
+
+/-! ### the same for well-formed tables -/
+
+theorem decBits_inner (t : Table) (h : WellFormed t) (cap : Nat) (bits : List Bool) :
+    ∀ (nd : Nat) (out : List UInt8), Inner nd →
+      ∀ nd' out', decBits t cap nd out bits = .more nd' out' → Inner nd' :=
+  decBits_inner_of_childLt t h.childLt cap bits
+
+theorem decZeros_terminates (t : Table) (h : WellFormed t) (cap : Nat) (fuel : Nat) :
+    ∀ (nd : Nat) (out : List UInt8), Inner nd → out.length ≤ cap →
+      514 * (cap - out.length) + nd < fuel → decZeros t cap fuel nd out ≠ .diverge :=
+  decZeros_terminates_of_childLt t h.childLt cap fuel
+
+theorem decompress_terminates (t : Table) (h : WellFormed t) (input : List UInt8) (cap : Nat) :
+    decompress t input cap ≠ .diverge := decompress_terminates_of_childLt t h.childLt input cap
+
+theorem decompress_trunc (t : Table) (h : WellFormed t) (input : List UInt8) (cap' cap : Nat)
+    (hc : cap' ≤ cap) : decompress t input cap' = (decompress t input cap).trunc cap' :=
+  decompress_trunc_of_childLt t h.childLt input cap' cap hc
+
+theorem decompress_capacity_iff (t : Table) (h : WellFormed t) (input : List UInt8) (cap : Nat) :
+    decompress t input cap = .capacity ↔
+      ∀ cap' out, decompress t input cap' = .ok out → cap < out.length :=
+  decompress_capacity_iff_of_childLt t h.childLt input cap
 
 end Tw.Huffman
 
